@@ -5,6 +5,7 @@ import (
 	"errors"
 	"fmt"
 	"github.com/metal-toolbox/auditevent"
+	"os"
 	"strings"
 	"testing"
 	"testing/synctest"
@@ -387,6 +388,106 @@ func runC15(t *testing.T, run *mc.Run) int {
 			viol("unencodable-event", nil, fmt.Sprintf("a record stamped in year 33658 (login last: %v)", loginIsLast), stop)
 		}
 	}
+	// two ended sessions opened by one pid are both held when the login for that pid arrives, and the release of
+	// the one the correlator visits first fails (its first event cannot be encoded): that failure stops the
+	// processor, whatever is released afterwards (both iteration orders, the failing session always the first)
+	for _, reverse := range []bool{false, true} {
+		n++
+		var twoHeld string
+		common.VerifIterOrder = func(_ any, k int) []int {
+			o := make([]int, k)
+			for i := range o {
+				o[i] = i
+				if reverse {
+					o[i] = k - 1 - i
+				}
+			}
+			return o
+		}
+		bubble(t, func() {
+			r := startRead(0)
+			defer r.stop()
+			for si, ses := range []string{"701", "702"} {
+				for i, typ := range []string{"LOGIN", "USER_START", "CRED_DISP"} {
+					res := "success"
+					if typ == "LOGIN" {
+						res = "1"
+					}
+					sec := 1700000200 + int64(si*10+i)
+					if i == 0 && (si == 1) == reverse {
+						sec = 999999999999 // year 33658: the JSON writer refuses it (the session that is visited first)
+					}
+					r.offerLine(auditgen.Simple(typ, sec, 7000+si*10+i, ses, "4242", res).Recs[0].Line + "\n")
+				}
+			}
+			r.offerLine(auditgen.Simple("USER_ACCT", 1700000230, 7030, "9", "9", "success").Recs[0].Line + "\n")
+			vsleep(3 * time.Second)
+			r.offerLogin(mkLogin(bindPID, "1"))
+			vsleep(time.Second)
+			if os.Getenv("VERIF_DEBUG") != "" {
+				fmt.Println("DEBUG twoHeld: returned", r.returned, "err", r.ret, "writes", len(r.w.writes))
+			}
+			switch {
+			case !r.returned:
+				twoHeld = fmt.Sprintf("the release of the session visited first failed, but the audit processor keeps running (%d events written)", len(r.w.writes))
+			case r.ret == nil:
+				twoHeld = "the audit processor returned nil"
+			}
+		})
+		common.VerifIterOrder = nil
+		if twoHeld != "" {
+			viol("write-failure-while-releasing-two-sessions-of-one-pid", nil, fmt.Sprintf("sessions 701 and 702, both pid 4242, both ended, both held, the first event of the one the correlator visits first unencodable, then the login; iteration order reversed: %v", reverse), twoHeld)
+		}
+	}
+	// record lengths: a record of every length around the sizes a reader or parser might have a limit at (read
+	// buffers, the kernel's and auditd's maximum record sizes), delivered the way the pipe delivers it (with its
+	// newline) and without: it becomes an event, or it stops the processor - it is never skipped
+	var lens []int
+	for _, c := range []int{1024, 4096, 8192, 8970, 9012, 16384, 65536} {
+		for d := -2; d <= 2; d++ {
+			lens = append(lens, c+d)
+		}
+	}
+	if run.Thorough() {
+		for l := 8900; l <= 9100; l++ {
+			lens = append(lens, l)
+		}
+	}
+	for _, l := range lens {
+		for _, nl := range []string{"\n", ""} {
+			n++
+			var msg string
+			bubble(t, func() {
+				r := startRead(0)
+				defer r.stop()
+				r.offerLogin(mkLogin(bindPID, "1"))
+				r.offerLine(bindLines("7") + "\n")
+				base := auditgen.Simple("USER_CMD", 1700000061, 5001, "7", "4242", "success").Recs[0].Line
+				pad := l - len(base)
+				if pad < 0 {
+					return
+				}
+				pad -= pad % 2 // the padded field is hex: keep it well-formed; lengths come out even-aligned to the base
+				line := strings.Replace(base, "cmd=2E2F", "cmd="+strings.Repeat("41", pad/2)+"2E2F", 1)
+				r.offerLine(line + nl)
+				r.offerLine(auditgen.Simple("USER_ACCT", 1700000062, 5002, "7", "4242", "success").Recs[0].Line + "\n")
+				vsleep(3 * time.Second)
+				evs, _ := r.w.events()
+				found := false
+				for _, e := range evs {
+					if e.LoggedAt.Unix() == 1700000061 {
+						found = true
+					}
+				}
+				if !found && !r.returned {
+					msg = fmt.Sprintf("a %d-byte record (delivered %s its newline) was skipped: no event, and the processor keeps running", len(line), map[string]string{"\n": "with", "": "without"}[nl])
+				}
+			})
+			if msg != "" {
+				viol("record-length", nil, fmt.Sprintf("record of about %d bytes", l), msg)
+			}
+		}
+	}
 	// two deliveries in flight at once: a one-shot write failure is reported by the parser goroutine while
 	// the Read goroutine is busy handing a login to the correlator (blocked on the tracker, not parked in its
 	// select). The failure must still stop the processor.
@@ -428,7 +529,7 @@ func runC15(t *testing.T, run *mc.Run) int {
 	})
 	run.Note("observation, not judged (the statement speaks of non-empty lines): a blank record delivered as \"\\n\": %s", short(blank, 160))
 	cov := mc.Coverage{Level: "model_checking", States: len(shapes), Transitions: n, Traces: n, Evaluations: n, Distinct: interleaved, Exhaustive: complete, Samples: samples,
-		Rule:  fmt.Sprintf("every merge of the record sequences of %d kernel events (5-record SYSCALL group, simple record, 4-record SYSCALL group ending in EOE) that keeps each event's internal order, x {no fault (every merge); for every merge (thorough) / every 25th merge (quick): each of 10 malformed line shapes at every position; output write failing at the k-th write for every k (login first, and login last so that the failure hits the release of held events), with the plain error and with errors that also match context.Canceled / DeadlineExceeded / ErrClosedPipe / EOF / EPIPE; 3 kinds of invalid login at every position}, delivered line by line to the real Auditd.Read in a synctest bubble ('does not return' = durably blocked). states = distinct stream shapes; distinct_nontrivial = shapes in which records of different kernel events interleave", nev),
+		Rule:  fmt.Sprintf("every merge of the record sequences of %d kernel events (5-record SYSCALL group, simple record, 4-record SYSCALL group ending in EOE) that keeps each event's internal order, x {no fault (every merge); for every merge (thorough) / every 25th merge (quick): each of 10 malformed line shapes at every position; output write failing at the k-th write for every k (login first, and login last so that the failure hits the release of held events), with the plain error and with errors that also match context.Canceled / DeadlineExceeded / ErrClosedPipe / EOF / EPIPE; 3 kinds of invalid login at every position; records of every length within 2 bytes of 1024 / 4096 / 8192 / 8970 / 9012 / 16384 / 65536 (thorough: every length 8900..9100), with and without their newline}, delivered line by line to the real Auditd.Read in a synctest bubble ('does not return' = durably blocked). states = distinct stream shapes; distinct_nontrivial = shapes in which records of different kernel events interleave", nev),
 		Extra: map[string]any{"kernel_events": nev, "stream_shapes": len(shapes), "malformed_shapes": len(malformed)}}
 	cov.Assumptions = []string{"testing/synctest durable-blocking semantics and virtual clock", "events are observed through the real tracker with the session bound, i.e. at the output writer"}
 	return run.Finish(cov)
